@@ -7,6 +7,7 @@ from typing import Dict, List, Optional, Set, Tuple
 from ..cfg import CFG, Node
 from ..core import AnalysisError, Cls, Fn, Repo, call_name, calls_in, const_value, dotted, get_kw, last_attr, short, walk_no_nested
 from ..registry import extract
+from ..pat import has
 from ..report import Check
 from ..terms import Atom, Poly, TermBuilder, mentions, single_atom, walk_atoms
 
@@ -100,7 +101,7 @@ def _get_action(ck: Check, repo: Repo, fn: Fn, cname: str) -> Optional[str]:
         ck.ob("C19.1", fn, vdef[0].ast, "unsqueeze(-1)" in ast.unparse(vdef[0].ast.value), f"{cname}: v is a column vector (so v v^T is the outer product)")
     # ---- C19.4 features and bonus
     src = ast.unparse(fn.node)
-    ck.ob("C19.4", fn, fn.node, "torch.zeros((self.action_dim, self.numel))" in src, f"{cname}: one feature row per arm, numel columns", construct=f"{cname}: feature matrix shape")
+    ck.ob("C19.4", fn, fn.node, has(src, 'torch.zeros((self.action_dim, self.numel))'), f"{cname}: one feature row per arm, numel columns", construct=f"{cname}: feature matrix shape")
     loops = [n for n in cfg.live_nodes() if n.kind == "for" and "enumerate(mu)" in ast.unparse(n.ast.iter)]
     ok = len(loops) == 1
     if ok:
@@ -175,14 +176,14 @@ def _mutation(ck: Check, repo: Repo) -> None:
         ck.ob("C19.3", am, c, any(a is not None and cfg.dominates(a, n) for a in ap), "after the architecture mutation was applied")
     rb = repo.fn("agilerl.hpo.mutation", "Mutations._reinit_bandit_grads")
     src = ast.unparse(rb.node)
-    ck.ob("C19.3", rb, rb.node, "exp_layer = offspring_actor.get_output_dense()" in src and "individual.exp_layer = exp_layer" in src, "exp_layer is re-pointed to the new output layer",
+    ck.ob("C19.3", rb, rb.node, has(src, '$exp_layer = $offspring_actor.get_output_dense()') and has(src, '$individual.exp_layer = $exp_layer'), "exp_layer is re-pointed to the new output layer",
           construct="_reinit_bandit_grads exp_layer")
-    ck.ob("C19.3", rb, rb.node, "individual.numel = sum((w.numel() for w in exp_layer.parameters() if w.requires_grad))" in src, "numel is recomputed from the new output layer",
+    ck.ob("C19.3", rb, rb.node, has(src, '$individual.numel = sum(($w.numel() for $w in $exp_layer.parameters() if $w.requires_grad))'), "numel is recomputed from the new output layer",
           construct="_reinit_bandit_grads numel")
-    ck.ob("C19.2", rb, rb.node, "new_sigma_inv[i, i] = 1 / individual.lamb" in src or "new_sigma_inv[i, i] = 1.0 / individual.lamb" in src,
+    ck.ob("C19.2", rb, rb.node, has(src, '$new_sigma_inv[$i, $i] = 1 / $individual.lamb') or has(src, '$new_sigma_inv[$i, $i] = 1.0 / $individual.lamb'),
           "rows/columns added for new parameters start from the inverse regulariser 1/lambda on the diagonal",
           detail="new diagonal entries are set to lambda instead of 1/lambda", construct="_reinit_bandit_grads new diagonal")
-    ck.ob("C19.3", rb, rb.node, "np.delete(np.delete(new_sigma_inv, to_remove, 0), to_remove, 1)" in src and "np.insert(np.insert(new_sigma_inv, to_add, 0, 0), to_add, 0, 1)" in src,
+    ck.ob("C19.3", rb, rb.node, has(src, 'np.delete(np.delete($new_sigma_inv, $to_remove, 0), $to_remove, 1)') and has(src, 'np.insert(np.insert($new_sigma_inv, $to_add, 0, 0), $to_add, 0, 1)'),
           "rows and columns are removed / inserted symmetrically (the matrix stays square and symmetric)", construct="_reinit_bandit_grads symmetric resize")
     ac = repo.fn("agilerl.hpo.mutation", "Mutations.activation_mutation")
     acfg = CFG(ac.node)
